@@ -1173,6 +1173,15 @@ func (c *Ctx) doSelect(st *State, fr *Frame, x *ssa.Select) []cont {
 			// default arm: no case was ready. For a channel whose only receiver is this goroutine
 			// that is a fact about its (lower-bounded) fill level: it is empty.
 			for _, ss := range x.States {
+				if ss.Dir == types.SendOnly {
+					// a send case that was not ready: the channel had no room at this moment (a nil
+					// channel is never ready either)
+					ch := c.term(f, ss.Chan, s)
+					ln := Select(c.Arr(s, famChLen, ArraySort(SInt, SInt)), ch)
+					cp := Select(c.Arr(s, famChCap, ArraySort(SInt, SInt)), ch)
+					s.Assume(Or(Eq(ch, IntLit(0)), T(SBool, "(>= %s %s)", ln.S, cp.S)))
+					continue
+				}
 				if ss.Dir != types.RecvOnly {
 					continue
 				}
